@@ -1,0 +1,99 @@
+//! Verification hook (compiled only with `--cfg nomt_verif`).
+//!
+//! Every mutating file operation of the store reports a `Begin` event before it is issued and an
+//! `End` event once it has completed. A process-global handler installed by the verification harness
+//! may observe the event (I/O trace), make the operation fail (`Begin` returns an error: the
+//! operation is skipped and the error is reported to the caller as if the OS had failed it), or
+//! never return (abort the process: crash testing).
+//!
+//! With the cfg flag off this module does not exist and nothing is compiled in.
+#![allow(missing_docs)]
+
+use std::{
+    os::fd::RawFd,
+    path::Path,
+    sync::{Arc, RwLock},
+};
+
+#[derive(Debug, Clone, Copy, PartialEq, Eq)]
+pub enum Kind {
+    /// in-place write of `len` bytes at `offset`
+    Write,
+    /// append of `len` bytes at the current end of the file
+    Append,
+    /// file resized to `offset` bytes
+    SetLen,
+    Fsync,
+    Unlink,
+    Create,
+    DirSync,
+}
+
+#[derive(Debug, Clone, Copy, PartialEq, Eq)]
+pub enum Phase {
+    Begin,
+    End,
+}
+
+#[derive(Debug, Clone)]
+pub struct Event<'a> {
+    pub kind: Kind,
+    pub phase: Phase,
+    pub fd: Option<RawFd>,
+    pub path: Option<&'a Path>,
+    pub offset: u64,
+    pub len: u64,
+    pub site: &'static str,
+}
+
+pub type Handler = dyn Fn(&Event<'_>) -> std::io::Result<()> + Send + Sync;
+
+static HANDLER: RwLock<Option<Arc<Handler>>> = RwLock::new(None);
+
+/// Override of the rollback log's segment size (0 = the built-in 64 MiB), so that segment
+/// roll-over and pruning are reachable with small deltas.
+static ROLLBACK_SEGMENT_SIZE: std::sync::atomic::AtomicU64 = std::sync::atomic::AtomicU64::new(0);
+
+pub fn set_rollback_segment_size(size: u64) {
+    ROLLBACK_SEGMENT_SIZE.store(size, std::sync::atomic::Ordering::SeqCst);
+}
+
+pub fn rollback_segment_size() -> Option<u64> {
+    match ROLLBACK_SEGMENT_SIZE.load(std::sync::atomic::Ordering::SeqCst) {
+        0 => None,
+        n => Some(n),
+    }
+}
+
+/// Install (or remove) the process-global handler.
+pub fn set_handler(handler: Option<Arc<Handler>>) {
+    *HANDLER.write().unwrap() = handler;
+}
+
+fn emit(ev: Event<'_>) -> std::io::Result<()> {
+    let handler = HANDLER.read().unwrap().clone();
+    match handler {
+        Some(h) => h(&ev),
+        None => Ok(()),
+    }
+}
+
+/// Report that an operation on an open file is about to be issued.
+pub fn begin(kind: Kind, fd: RawFd, offset: u64, len: u64, site: &'static str) -> std::io::Result<()> {
+    emit(Event { kind, phase: Phase::Begin, fd: Some(fd), path: None, offset, len, site })
+}
+
+/// Report that an operation on an open file has completed.
+pub fn end(kind: Kind, fd: RawFd, offset: u64, len: u64, site: &'static str) {
+    let _ = emit(Event { kind, phase: Phase::End, fd: Some(fd), path: None, offset, len, site });
+}
+
+/// Report that an operation on a path (create, unlink) is about to be issued.
+pub fn begin_path(kind: Kind, path: &Path, site: &'static str) -> std::io::Result<()> {
+    emit(Event { kind, phase: Phase::Begin, fd: None, path: Some(path), offset: 0, len: 0, site })
+}
+
+/// Report that an operation on a path has completed.
+pub fn end_path(kind: Kind, path: &Path, site: &'static str) {
+    let _ = emit(Event { kind, phase: Phase::End, fd: None, path: Some(path), offset: 0, len: 0, site });
+}
